@@ -17,7 +17,7 @@
    [log_arrays nodes [S;I;R] tmin st evs] = the row (tmin, census st) followed by one row per
    event: its time and the census of the statuses after replaying the events up to it. *)
 From EoNV Require Import Prelude Samp Graph EventSIR EventSIRP EventSIRInv EventSIRMain EventSIRPred.
-From EoNV Require Import Investigation EventSIRLog EventSIRRows EventSIRTraj EventSIRC04.
+From EoNV Require Import Investigation EventSIRLog EventSIRRows EventSIRTraj EventSIRC04 EventSIRFifo.
 From EoNV Require Gillespie GillespieP.
 From Coq Require Import Permutation.
 
@@ -58,6 +58,22 @@ Theorem C04_esir_first_row_as_requested : forall tb g delay dur i0 r0 tmin tmax 
        exists rest, so_rows out =
          (tmin, [order g - Z.of_nat (length i0) - Z.of_nat (length r0); Z.of_nat (length i0); Z.of_nat (length r0)]%Z) :: rest).
 Proof. exact esir_rows_start. Qed.
+
+(* --- the same for the CODE's tie policy, without any condition on delays and durations:
+   [init_first n0 tb] = among equal times an entry pushed during set-up (heap counter < |I0|)
+   is never overtaken by one pushed later; the heap order (time, counter) = [fifo] is such a
+   policy.  Zero delays and zero durations are allowed: the same-instant events they cause
+   are served after the |I0| initial infections. *)
+Theorem C04_esir_first_row_as_requested_fifo : forall tb g delay dur i0 r0 tmin tmax full fuel,
+  init_first (length i0) tb ->
+  esir_okb2 g delay dur i0 r0 tmin tmax = true -> (esir_fuel g i0 <= fuel)%nat ->
+  exists evs out cs,
+    esir_log tb g delay dur i0 r0 tmin tmax fuel = Ok evs /    esir_det tb g delay dur i0 r0 tmin tmax full fuel = Ok (out, cs) /    Permutation (firstn (length i0) evs) (init_events tmin i0) /    so_rows out = log_arrays (gnodes g) sir_ps tmin (esir_init i0 r0) (skipn (length i0) evs) /    exists rest, so_rows out =
+      (tmin, [order g - Z.of_nat (length i0) - Z.of_nat (length r0); Z.of_nat (length i0); Z.of_nat (length r0)]%Z) :: rest.
+Proof. exact esir_rows_start_fifo. Qed.
+
+Theorem C04_esir_code_policy_is_init_first : forall n0, init_first n0 fifo.
+Proof. exact fifo_init_first. Qed.
 
 (* what [trajS] says, clause by clause (the lemmas of Props/C04.v at kind SIR) *)
 Theorem C04_esir_first_time_is_tmin : forall g tmin tmax l,
@@ -139,6 +155,8 @@ Proof. vm_compute. repeat split. Qed.
 
 Print Assumptions C04_esir_rows_well_formed.
 Print Assumptions C04_esir_first_row_as_requested.
+Print Assumptions C04_esir_first_row_as_requested_fifo.
+Print Assumptions C04_esir_code_policy_is_init_first.
 Print Assumptions C04_esir_first_time_is_tmin.
 Print Assumptions C04_esir_consecutive_rows.
 Print Assumptions C04_esir_counts_nonnegative_and_sum_to_N.
